@@ -52,6 +52,51 @@ Cond = tuple  # (atom, truth)
 
 
 # ---------------------------------------------------------------------------------------------------------------
+# module-level tables made by a constructor function of a builtin type
+
+_TYPE_FUNCS: dict[tuple[str, str], t.Any] = {
+    ("str", "maketrans"): str.maketrans,
+    ("bytes", "maketrans"): bytes.maketrans,
+    ("bytearray", "maketrans"): bytearray.maketrans,
+    ("dict", "fromkeys"): dict.fromkeys,
+    ("bytes", "fromhex"): bytes.fromhex,
+}
+_UNBOUND_OK = {"str": str, "bytes": bytes}
+_UNBOUND_METHODS = {"join", "lower", "upper", "strip", "lstrip", "rstrip", "split", "replace", "title", "casefold", "encode", "decode", "translate", "format"}
+
+
+class TableFolder(Folder):
+    """the engine's constant folder, plus calls spelled *on a builtin type*: ``str.maketrans({...})`` /
+    ``str.maketrans(a, b[, delete])`` / ``bytes.maketrans(a, b)`` / ``dict.fromkeys(keys, v)`` (a translation table is
+    the mapping {code point: replacement | None} that ``str.translate`` reads) and unbound method calls such as
+    ``str.join(", ", parts)``.  Everything else is the engine's."""
+
+    def _call(self, m, n: ast.Call, env):  # type: ignore[override]
+        f = n.func
+        if isinstance(f, ast.Attribute) and isinstance(f.value, ast.Name) and f.value.id not in env and self.repo.resolve(m, f.value.id) == f"builtins.{f.value.id}":
+            fn = _TYPE_FUNCS.get((f.value.id, f.attr))
+            if fn is None and f.value.id in _UNBOUND_OK and f.attr in _UNBOUND_METHODS:
+                fn = getattr(_UNBOUND_OK[f.value.id], f.attr)
+            if fn is not None:
+                if any(isinstance(a, ast.Starred) for a in n.args) or any(kw.arg is None for kw in n.keywords):
+                    raise Unfoldable("starred call")
+                args = [self._ev(m, a, env) for a in n.args]
+                kwargs = {kw.arg: self._ev(m, kw.value, env) for kw in n.keywords}
+                try:
+                    return fn(*args, **kwargs)
+                except Unfoldable:
+                    raise
+                except Exception as ex:  # noqa: BLE001 - the table cannot be built from these constants
+                    raise Unfoldable(f"{f.value.id}.{f.attr}: {ex}")
+        return super()._call(m, n, env)
+
+
+def table_folder(repo: Repo, folder: Folder | None = None) -> Folder:
+    """the folder the C06 machinery works with (a plain engine Folder handed in is replaced by the table-aware one)."""
+    return folder if isinstance(folder, TableFolder) else TableFolder(repo)
+
+
+# ---------------------------------------------------------------------------------------------------------------
 # terms
 
 
@@ -467,7 +512,7 @@ class Summaries:
 
     def __init__(self, repo: Repo, folder: Folder | None = None, fuse_generators: bool = True):
         self.repo = repo
-        self.folder = folder or Folder(repo)
+        self.folder = table_folder(repo, folder)
         # the two sound readings of `for x in _generator_helper(..)`: fused (the helper's loop is this loop: one start
         # per yield site, as if the helper's body were written inline) or materialised (the helper is a function that
         # returns the list of what it yields, the loop runs over its generic element)
@@ -1270,7 +1315,56 @@ class _Exec:
     def kwargs_of(self, names: list[str | None], vals: list[Term]) -> tuple:
         return tuple(("kw", n or "**", v) for n, v in zip(names, vals))
 
+    def functional_form(self, e: ast.Call, st: State) -> ast.AST | None:
+        """``map(lambda x: E, xs)`` / ``itertools.starmap(lambda a, b: E, xs)`` / ``filter(lambda x: C, xs)`` /
+        ``itertools.filterfalse(...)`` / ``filter(None, xs)`` written as the generator expression they are
+        (``(E for x in xs)``, ``(E for a, b in xs)``, ``(x for x in xs if C)`` ...), and ``itertools.chain(a, b)`` /
+        ``chain.from_iterable((a, b))`` as the display ``[*a, *b]``: the same items, read by the same machinery."""
+        if e.keywords or any(isinstance(a, ast.Starred) for a in e.args):
+            return None
+        d = dotted(e.func)
+        if d is None or d.split(".", 1)[0] in st.env:
+            return None
+        fq = self.repo.resolve(self.module, d, self.local_imports)
+        new: ast.AST | None = None
+        if fq in ("itertools.chain",) and e.args:
+            new = ast.List(elts=[ast.Starred(value=a, ctx=ast.Load()) for a in e.args], ctx=ast.Load())
+        elif fq == "itertools.chain.from_iterable" and len(e.args) == 1 and isinstance(e.args[0], (ast.Tuple, ast.List)) and not any(isinstance(x, ast.Starred) for x in e.args[0].elts):
+            new = ast.List(elts=[ast.Starred(value=a, ctx=ast.Load()) for a in e.args[0].elts], ctx=ast.Load())
+        elif fq in ("builtins.map", "itertools.starmap", "builtins.filter", "itertools.filterfalse") and len(e.args) == 2:
+            fn, xs = e.args
+            if isinstance(fn, ast.Constant) and fn.value is None and fq in ("builtins.filter", "itertools.filterfalse"):
+                x = ast.Name(id="_each", ctx=ast.Load())
+                cond: ast.AST = x if fq == "builtins.filter" else ast.UnaryOp(op=ast.Not(), operand=x)
+                new = ast.GeneratorExp(elt=x, generators=[ast.comprehension(target=ast.Name(id="_each", ctx=ast.Store()), iter=xs, ifs=[cond], is_async=0)])
+            elif isinstance(fn, ast.Lambda):
+                a = fn.args
+                if a.vararg or a.kwarg or a.kwonlyargs or a.defaults or a.posonlyargs and a.args:
+                    return None
+                params = [x.arg for x in (a.posonlyargs or a.args)]
+                if not params:
+                    return None
+                if fq == "itertools.starmap":
+                    target: ast.AST = ast.Tuple(elts=[ast.Name(id=p, ctx=ast.Store()) for p in params], ctx=ast.Store())
+                elif len(params) == 1:
+                    target = ast.Name(id=params[0], ctx=ast.Store())
+                else:
+                    return None
+                if fq in ("builtins.map", "itertools.starmap"):
+                    new = ast.GeneratorExp(elt=fn.body, generators=[ast.comprehension(target=target, iter=xs, ifs=[], is_async=0)])
+                else:
+                    cond = fn.body if fq == "builtins.filter" else ast.UnaryOp(op=ast.Not(), operand=fn.body)
+                    new = ast.GeneratorExp(elt=ast.Name(id=params[0], ctx=ast.Load()), generators=[ast.comprehension(target=target, iter=xs, ifs=[cond], is_async=0)])
+        if new is None:
+            return None
+        ast.copy_location(new, e)
+        ast.fix_missing_locations(new)
+        return new
+
     def ev_Call(self, e: ast.Call, st: State):  # noqa: N802
+        ff = self.functional_form(e, st)
+        if ff is not None:
+            return self.ev(ff, st)
         if any(isinstance(a, ast.Starred) for a in e.args):
             return [(st, ("v", norm(e)))]
         kwn = [k.arg for k in e.keywords]
@@ -1495,13 +1589,21 @@ _PURE_METHODS = {
     set: {"issuperset", "issubset", "isdisjoint", "union", "intersection", "difference"},
     dict: {"get", "items", "keys", "values"},
 }
-_PURE_BUILTINS = {"builtins.str": str, "builtins.len": len, "builtins.int": int, "builtins.set": set, "builtins.frozenset": frozenset, "builtins.bool": bool, "builtins.list": list, "builtins.tuple": tuple, "builtins.min": min, "builtins.max": max, "builtins.isinstance": None, "builtins.all": all, "builtins.any": any, "builtins.sorted": sorted, "builtins.repr": repr, "builtins.ord": ord, "builtins.chr": chr, "builtins.abs": abs}
+_PURE_BUILTINS = {"builtins.str.maketrans": str.maketrans, "builtins.bytes.maketrans": bytes.maketrans, "builtins.str": str, "builtins.len": len, "builtins.int": int, "builtins.set": set, "builtins.frozenset": frozenset, "builtins.bool": bool, "builtins.list": list, "builtins.tuple": tuple, "builtins.min": min, "builtins.max": max, "builtins.isinstance": None, "builtins.all": all, "builtins.any": any, "builtins.sorted": sorted, "builtins.repr": repr, "builtins.ord": ord, "builtins.chr": chr, "builtins.abs": abs}
 _EXC_PARENTS = {"IndexError": {"LookupError", "Exception", "BaseException"}, "KeyError": {"LookupError", "Exception", "BaseException"}, "ValueError": {"Exception", "BaseException"}, "TypeError": {"Exception", "BaseException"}, "UnicodeDecodeError": {"UnicodeError", "ValueError", "Exception", "BaseException"}, "UnicodeEncodeError": {"UnicodeError", "ValueError", "Exception", "BaseException"}, "AttributeError": {"Exception", "BaseException"}, "OverflowError": {"ArithmeticError", "Exception", "BaseException"}}
 
 
 def _exc_matches(handler_text: str, kind: str) -> bool:
     names = {x.strip().rsplit(".", 1)[-1] for x in handler_text.strip("()").split(",")}
     return kind in names or bool(names & _EXC_PARENTS.get(kind, {"Exception", "BaseException"}))
+
+
+def _as_mapping(v: t.Any) -> t.Any:
+    """the value of a dict display / dict comprehension (evaluated as the list of its ("kv", key, value) entries) as
+    the mapping a table consumer reads (later entries win, as in the display)."""
+    if isinstance(v, list) and v and all(isinstance(x, tuple) and len(x) == 3 and x[0] == "kv" for x in v):
+        return {x[1]: x[2] for x in v}
+    return v
 
 
 class Conc:
@@ -1652,6 +1754,14 @@ class Conc:
                 return [self.val(items[0][1], env)]
             if not items:
                 return []
+            if all(not cs and it_[0] == "kv" for cs, it_ in items):
+                # a dict display: as a mapping it does not depend on the order of its entries (keys must differ)
+                kvs = [self.val(it_, env) for _, it_ in items]
+                try:
+                    if len({kv[1] for kv in kvs}) == len(kvs):
+                        return kvs
+                except TypeError:
+                    pass
             raise Unknown("order of a collection filled at several places")
         if len(its) != 1:
             raise Unknown("collection over several iterations")
@@ -1726,6 +1836,8 @@ class Conc:
             if name in ("group", "groups", "start", "end", "span", "groupdict"):
                 return getattr(recv, name)(*args, **kwargs)
             raise Unknown(f"match method {name}")
+        if name == "translate" and isinstance(recv, (str, bytes)):
+            args = [_as_mapping(a) for a in args]
         for ty, names in _PURE_METHODS.items():
             if type(recv) is ty and name in names:
                 try:
@@ -1741,6 +1853,8 @@ class Conc:
         if not isinstance(f, FuncRef):
             raise Unknown(f"call of {show(t_[1])}")
         if f.fq in _PURE_BUILTINS and _PURE_BUILTINS[f.fq] is not None:
+            if f.fq.endswith(".maketrans"):
+                args = [_as_mapping(a) for a in args]
             try:
                 return _PURE_BUILTINS[f.fq](*args, **kwargs)  # type: ignore[misc]
             except Exception as ex:
@@ -2179,15 +2293,22 @@ _EXT_PURE = {
     "builtins.bytes", "builtins.bytearray", "builtins.ascii", "builtins.format", "builtins.map", "builtins.filter", "builtins.iter", "builtins.next", "builtins.hex",
     "urllib.parse.unquote", "urllib.parse.quote", "urllib.parse.unquote_to_bytes", "urllib.parse.unquote_plus", "urllib.parse.quote_plus",
     "urllib.request.parse_http_list", "base64.b64encode", "base64.b64decode", "re.escape", "re.sub", "re.match", "re.fullmatch", "re.search", "re.split", "re.findall",
-    "operator.itemgetter", "itertools.chain", "itertools.islice",
+    "operator.itemgetter", "itertools.chain", "itertools.islice", "itertools.chain.from_iterable", "itertools.takewhile", "itertools.dropwhile",
+    "itertools.filterfalse", "itertools.starmap", "itertools.zip_longest", "itertools.accumulate", "itertools.compress", "itertools.pairwise", "functools.reduce",
 }  # fmt: skip
-_EAGER = {"builtins.enumerate", "builtins.zip", "builtins.reversed", "builtins.map", "builtins.filter", "itertools.chain", "itertools.islice"}
+# iterators of the standard library are materialised (their sources are finite here and their callables pure): a
+# sequence with the same elements in the same order.  What only an iterator can do - next() - is refused on them.
+_EAGER = {
+    "builtins.enumerate", "builtins.zip", "builtins.reversed", "builtins.map", "builtins.filter", "itertools.chain", "itertools.islice", "itertools.chain.from_iterable",
+    "itertools.takewhile", "itertools.dropwhile", "itertools.filterfalse", "itertools.starmap", "itertools.zip_longest", "itertools.accumulate", "itertools.compress",
+    "itertools.pairwise",
+}  # fmt: skip
 
 
 class Machine:
     def __init__(self, repo: Repo, folder: Folder, max_steps: int = 200_000):
         self.repo = repo
-        self.folder = folder
+        self.folder = table_folder(repo, folder)
         self.max_steps = max_steps
         self.steps = 0
         self.depth = 0
@@ -2514,6 +2635,9 @@ class Machine:
                 flags = args[1] if len(args) > 1 else kwargs.get("flags", 0)
                 return RegexConst(args[0], int(flags))
             raise NotModelled("re.compile of a non-constant")
+        if fq == "builtins.next" and args and isinstance(args[0], (list, tuple, str, bytes, dict, set, frozenset)):
+            # a materialised iterator cannot be told from a real sequence here (on which next() is a TypeError)
+            raise NotModelled("next() of a value that is a sequence in this evaluation (library iterators are materialised)")
         target = _stdlib_attr(fq)
         if isinstance(target, type) and issubclass(target, BaseException):
             return ExcVal(target, tuple(args))
